@@ -9,10 +9,12 @@ OPS = ('**', '==', '!=', '<=', '>=', '&&', '||', '*', '/', '+', '-', '<', '>', '
 BINARY = ('**', '*', '/', '==', '!=', '<=', '>=', '<', '>', '&&', '||')         # never a sign
 class NotInGrammar(Exception):
     pass
-def lib_outcome(s, O=None):
+def lib_outcome(s, O=None, es=None):
     def go():
-        with ExpressionSolver(AtomBase) as es:
-            return es.solve(s)
+        if es is not None:
+            return es.solve(s)          # an instance with a history (C02)
+        with ExpressionSolver(AtomBase) as fresh:
+            return fresh.solve(s)
     if O is not None:
         O.nonfinite_seen(reset=True)
     try:
